@@ -553,7 +553,13 @@ def _array(e, st, node, x, dtype=None, copy=None):
         if kind != a.kind:
             return e.new_obj(st, e.lam(lambda *ix: e.num(a[tuple(ix)], kind), a.shape, kind))
         meta = {k: v for k, v in a.meta.items() if k not in ('list', 'view_of')}
-        if node.func.attr == 'asarray' and not a.meta.get('list') and isinstance(x, Ref):
+        fname = getattr(node.func, 'attr', None)
+        if fname is None:        # called through a local name bound to the function (`sparsetype = np.array`)
+            fv = st.env.get(getattr(node.func, 'id', None), None)
+            if not isinstance(fv, Func):
+                raise Unsupported('array constructor reached through %r' % (fv,))
+            fname = fv.name.split('.')[-1]
+        if fname == 'asarray' and not a.meta.get('list') and isinstance(x, Ref):
             return x       # asarray of an ndarray is the same object
         return e.new_obj(st, Arr(a.term, a.shape, a.kind, a.init, meta))
     if isinstance(a, Tup) and a.items and isinstance(a.items[0], Opaque) and a.items[0].tag == 'repeat-rows':
